@@ -339,7 +339,7 @@ impl Property for C11 {
             Tier::Quick => vec![
                 Plan {
                     name: "hist",
-                    kind: PlanKind::Random { cases: 30000, max_len: 400 },
+                    kind: PlanKind::Random { cases: 100_000, max_len: 400 },
                     knobs: Knobs { max_ops: 60, ..Default::default() },
                 },
                 small,
@@ -347,7 +347,7 @@ impl Property for C11 {
             Tier::Thorough => vec![
                 Plan {
                     name: "hist",
-                    kind: PlanKind::Random { cases: 200_000, max_len: 500 },
+                    kind: PlanKind::Random { cases: 1_000_000, max_len: 500 },
                     knobs: Knobs { max_ops: 80, ..Default::default() },
                 },
                 small,
